@@ -1080,6 +1080,10 @@ def rewrap(adt, v, fs):
         x = fs[0][1]
         if isinstance(x, tuple) and x and x[0] == "vfield" and x[2] == v and x[3] == "0" and adt == OPTION:
             return x[1]
+    if adt.endswith("::CosmosMsg") and len(fs) == 1 and isinstance(fs[0][1], tuple) and fs[0][1] and fs[0][1][0] == "variant" \
+            and fs[0][1][1].endswith("::" + v + "Msg"):
+        # CosmosMsg::Wasm(m) built by hand is what `m.into()` builds (the From impls are identities in the term language)
+        return fs[0][1]
     return ("variant", adt, v, fs)
 
 
